@@ -353,7 +353,7 @@ def run(ctx):
     cases, models = {}, {}
     for i in range(n):
         r = random.Random(ctx.rng.getrandbits(48))
-        g = m.Gen(r, size=1.0 if (not ctx.thorough or i % 4) else 3.0)
+        g = m.Gen(r, size=(1.0 if i % 7 else 2.5) if not ctx.thorough else (1.0 if i % 4 else 3.0))
         g.c20 = True
         M = g.model()
         if i % 4 != 3:
